@@ -195,7 +195,9 @@ class OptionKey:
     def __lt__(self, other: object) -> bool:
         if isinstance(other, OptionKey):
             if self.subproject is None:
-                return other.subproject is not None
+                if other.subproject is not None:
+                    return True
+                return (self.machine, self.name) < (other.machine, other.name)
             elif other.subproject is None:
                 return False
             return self._to_tuple() < other._to_tuple()
